@@ -806,7 +806,7 @@ PROPERTIES["C18"] = {
                      ["mode=wlearner;K=2;n=6;T=2;wl=%s" % w for w in ("affine", "stump", "hinge", "dense-table", "dstep-table", "kbest-table", "ksplit-table", "dtree")] +
                      ["mode=wlearner;K=%d;n=10;T=2;wl=%s" % (k, w) for k in (2, 3) for w in ("dense-table", "dstep-table", "kbest-table", "ksplit-table")],
          "env": {"SBV_PREEMPT": "1", "SBV_RACE": "1"}, "env_tier": {"thorough": {"SBV_PREEMPT": "2"}},
-         "budget": {"quick": {"deadline_s": 100, "max_paths": 400000, "query_s": 10}, "thorough": {"deadline_s": 900, "max_paths": 5000000, "query_s": 30}},
+         "budget": {"quick": {"deadline_s": 100, "max_paths": 400000, "query_s": 10}, "thorough": {"deadline_s": 300, "max_paths": 5000000, "query_s": 30}},
          "encoded": ["nano::loss_t::{error, value, vgrad} of every registered loss", "nano::solver_t::minimize + do_minimize of every deterministic solver (line-search solvers with their lsearch0 / lsearchk objects, bundle solvers with the inner QP solver)",
                      "nano::dataset_t::{flatten, select, targets}, generators scalar_identity / sclass_identity", "nano::{targets_iterator_t, flatten_iterator_t, select_iterator_t}::loop (per-thread buffers), cache_flatten / cache_targets",
                      "nano::linear::function_t::do_vgrad, nano::gboost::{bias_function_t, scale_function_t, grads_function_t} (per-thread accumulators, reduction)", "nano::wlearner_t::{fit, predict} of every weak learner (select_iterator_t loops over the pool)",
@@ -817,14 +817,14 @@ PROPERTIES["C18"] = {
          "thorough": ["mode=fit;K=2;n=12;batch=10;folds=2", "mode=fit;K=2;n=24;batch=10;folds=2", "mode=fit;K=3;n=24;batch=10;folds=3", "mode=fit;K=2;n=12;batch=10;folds=2;model=ridge", "mode=fit;K=2;n=24;batch=10;folds=2;loss=mae",
                       "mode=fit;model=gboost;K=2;n=12;batch=10;folds=2;patience=3", "mode=fit;model=gboost;K=2;n=24;batch=10;folds=2;patience=2", "mode=fit;model=gboost;K=3;n=12;batch=10;folds=3;patience=2"],
          "env": {"SBV_PREEMPT": "1", "SBV_RACE": "1", "SBV_BLOCK_FORKS": "1"}, "env_tier": {"thorough": {"SBV_PREEMPT": "1", "SBV_BLOCK_FORKS": "3"}},
-         "budget": {"quick": {"deadline_s": 75, "max_paths": 400000, "query_s": 10}, "thorough": {"deadline_s": 1500, "max_paths": 5000000, "query_s": 30}},
+         "budget": {"quick": {"deadline_s": 75, "max_paths": 400000, "query_s": 10}, "thorough": {"deadline_s": 600, "max_paths": 5000000, "query_s": 30}},
          "encoded": ["nano::gboost_model_t::fit end to end (bias, gradients, weak-learner selection among affine / stump / dense-table over the dataset pool, scaling, early stopping, fold averaging, refit)", "nano::linear_t::fit end to end: ml::tune (folds on the tuning pool's workers), ::fit -> flatten_iterator_t (batches on the dataset pool's workers, two submitters), scalar statistics, linear::function_t, solver lbfgs, linear::evaluate, refit, result_t",
                      "std::put_time of the file loggers stubbed (writes nothing)"]},
         {"engine": "sbv", "harness": "C18_tune", "sources": ["C18_shared.cpp"], "replay_with": "interpreter",
          "quick": ["mode=tune;K=2;n=4;folds=2;g=3;dims=2", "mode=tune;K=2;n=4;folds=2;g=3;dims=1"],
          "thorough": ["mode=tune;K=2;n=4;folds=2;g=3;dims=2", "mode=tune;K=2;n=4;folds=2;g=3;dims=1", "mode=tune;K=3;n=6;folds=3;g=3;dims=2", "mode=tune;K=2;n=4;folds=2;g=3;dims=2;tuner=surrogate", "mode=tune;K=2;n=6;folds=3;g=4;dims=1"],
          "env": {"SBV_PREEMPT": "1", "SBV_RACE": "1", "SBV_BLOCK_FORKS": "2"}, "env_tier": {"thorough": {"SBV_PREEMPT": "2", "SBV_BLOCK_FORKS": "3"}},
-         "budget": {"quick": {"deadline_s": 100, "max_paths": 400000, "query_s": 10}, "thorough": {"deadline_s": 1200, "max_paths": 5000000, "query_s": 30}},
+         "budget": {"quick": {"deadline_s": 100, "max_paths": 400000, "query_s": 10}, "thorough": {"deadline_s": 600, "max_paths": 5000000, "query_s": 30}},
          "encoded": ["nano::ml::tune (real: k-fold splitter, local-search / surrogate tuner, own pool_t of K workers, result_t::{add, store, extra, closest_trial, values, optimum_trial})",
                      "std::any copy / move of the per-(trial, fold) extras (interpreted from the bitcode)", "file loggers of the per-fold fits (native std::ofstream)"]},
     ],
